@@ -363,7 +363,7 @@ __seq_altnext(struct dt_dt_s now, const struct dseq_clo_s *clo)
 {
 	do {
 		now = date_add(now, clo->altite, clo->naltite);
-	} while (skipp(clo->ss, now) && __in_range_p(now, clo));
+	} while (skipp(clo->ss, now) && __in_range_p(dt_fixup(now), clo));
 	return now;
 }
 
@@ -371,14 +371,15 @@ static struct dt_dt_s
 __seq_this(struct dt_dt_s now, const struct dseq_clo_s *clo)
 {
 /* if NOW is on a skip date, find the next date according to ALTITE, then ITE */
-	if (!skipp(clo->ss, now) && __in_range_p(now, clo)) {
+	if (!skipp(clo->ss, now) && __in_range_p(dt_fixup(now), clo)) {
 		return now;
 	} else if (clo->naltite > 0) {
 		return __seq_altnext(now, clo);
 	} else if (clo->nite) {
-		/* advance until it goes out of range */
+		/* advance until it goes out of range,
+		 * days beyond the ultimo are kept lazily, the ultimo counts */
 		for (;
-		     skipp(clo->ss, now) && __in_range_p(now, clo);
+		     skipp(clo->ss, now) && __in_range_p(dt_fixup(now), clo);
 		     now = date_add(now, clo->ite, clo->nite));
 	} else {
 		/* good question */
